@@ -59,6 +59,7 @@ PROPS = {
     'C10': dict(suites=[('snap', [])], column='dur', clscol='dcls', relevant=lambda r: 'C10' in r['f'].get('own', ''), title='Snapshots are crash-atomic'),
     'C05': dict(suites=[('sched', [])], column='atom', clscol='acls', relevant=lambda r: 'atom' in r['f'], title='Commands are atomic'),
     'C09': dict(suites=[('aof', [])], column='dur', clscol='dcls', relevant=lambda r: 'C09' in r['f'].get('own', ''), title='Log rewrite transparent and crash-atomic'),
+    'C07': dict(suites=[('raft', [])], column='rep', clscol='rcls', relevant=lambda r: True, title='Replication: replicas apply the leader\'s writes identically, in order'),
     'C18': dict(suites=[('pubsub', [])], column='ps', clscol='scls', relevant=lambda r: True, title='Pub/Sub'),
     'C17': dict(suites=[('zset', [])], column='kv', relevant=lambda r: r['name'] in ZSET_CMDS, title='Sorted-set commands'),
     'C08': dict(suites=[('evict', [])], column='ev', clscol='ecls', relevant=lambda r: True, title='Max-memory policy',
@@ -335,6 +336,35 @@ def run_suite(cx, work, suite, args, seed, tier, replay=None):
             rows.append(dict(seq=w[1], now=int(w[2]), db=int(w[3]), cmd=cmd, kind=w[ridx + 1], payload=unx(w[ridx + 2]),
                              pre=' '.join(w[sidx + 1:ridx]), post=' '.join(w[eidx + 1:]), name=(cmd[0].decode('latin1').lower() if cmd else ''),
                              model=m[0], detail=m[1], f=dict(m[2], shape=w[6] + ':' + w[5]), suite=suite))
+        elif l.startswith('F ') or l.startswith('K ') or l.startswith('Q '):
+            # raft suite: one log entry on several state machines / one dispatched command / one batch on a cluster
+            w = l.rstrip('\n').split(' ')
+            seq = w[1]
+            m = verd.get(seq, ('?', 'no verdict', {}))
+            cmd, kind, payload, name = [], '', b'', 'batch'
+            if l[0] in 'FK':
+                i = w.index('C')
+                argc = int(w[i + 1])
+                cmd = [unx(x) for x in w[i + 2:i + 2 + argc]]
+                j = w.index('R', i + 2 + argc)
+                kind, payload = w[j + 1], unx(w[j + 2])
+                name = ' '.join(c.decode('latin1').lower() for c in cmd[:2]) if cmd and cmd[0].lower() in (b'acl', b'pubsub', b'command', b'module') else (cmd[0].decode('latin1').lower() if cmd else '')
+                name = ('apply:' if l[0] == 'F' else w[2] + ':') + name
+            else:
+                nops = int(w[4])
+                k = 5
+                ops = []
+                for _ in range(nops):
+                    argc = int(w[k + 5])
+                    c = [unx(x) for x in w[k + 6:k + 6 + argc]]
+                    ops.append((w[k], c, w[k + 2], unx(w[k + 3])))
+                    k += 6 + argc
+                if ops:
+                    cmd = [b'@%s' % ops[-1][0].encode()] + ops[-1][1]
+                    kind, payload = ops[-1][2], ops[-1][3]
+                    name = 'batch:' + ','.join(sorted({o[1][0].decode('latin1').lower() + '@' + o[0] for o in ops if o[1]}))[:80]
+            rows.append(dict(seq=seq, now=0, db=0, cmd=cmd, kind=kind, payload=payload, pre='', post='', name=name,
+                             model=m[0], detail=m[1], f=m[2], suite=suite, line=l[0]))
         elif l.startswith('T '):
             t = parse_tline(l.rstrip('\n'))
             m = verd.get(t['seq'], ('?', 'no verdict', {}))
@@ -358,6 +388,10 @@ def seq_prefix(seqmap, seqid):
     if seqid in seqmap and 'auto' in seqmap[seqid]:
         return seqmap[seqid]                      # one automatic-snapshot trial
     parts = seqid.split('.')
+    if parts[0] in seqmap and 'rkind' in seqmap[parts[0]]:
+        # raft suite: the experiment (kind, clocks, role) with its operations cut after the failing one
+        s = seqmap[parts[0]]
+        return dict(s, ops=s['ops'][:int(re.sub(r'\D', '', parts[1]) or 0) + 1])
     if parts[0] in seqmap and 'base' in seqmap[parts[0]]:
         return seqmap[parts[0]]                   # an interleaving experiment: all schedules of the pair are re-run
     if parts[0] in seqmap and 'mode' in seqmap[parts[0]]:
@@ -421,6 +455,8 @@ def shrink(cx, work, suite, seq, pred, budget=60):
     """greedy one-op-at-a-time removal keeping `pred(last row)` true"""
     if not seq.get('ops'):
         return seq
+    if seq.get('rkind') in ('cluster', 'disp'):
+        budget = min(budget, 8)          # every replay starts a three-node cluster
     ops = seq['ops']
     tries = 0
     i = 0
@@ -618,7 +654,7 @@ def decide(cx, prop, tier, seed, t_start):
     # ---- evidence
     distinct = set()
     for r in rel:
-        if r.get('line') in ('Z', 'A', 'W', 'P', 'G') or r['pre'] != r['post'] or (r['kind'] == 'ok' and r['payload'] not in (b'$-1\r\n', b'')):
+        if r.get('line') in ('Z', 'A', 'W', 'P', 'G', 'F', 'K', 'Q') or r['pre'] != r['post'] or (r['kind'] == 'ok' and r['payload'] not in (b'$-1\r\n', b'')):
             distinct.add((r['name'], len(r['cmd']), r['kind'], r['f'].get(col, 'na'), r['f'].get(clscol, '-'), r['f'].get('shape', '')))
     samples = []
     seen = set()
